@@ -27,6 +27,9 @@ site: http://bugseng.com/products/ppl/ . */
 #include <algorithm>
 #include <memory>
 #include <map>
+#ifdef BUGSENG_PPL_VERIF
+#include "verif_hooks.hh"
+#endif
 
 #if 0
 #define NOISY_PIP_TREE_STRUCTURE 1
@@ -2174,6 +2177,9 @@ PIP_Solution_Node::ascii_load(std::istream& is) {
 PIP_Solution_Node::Row_Sign
 PIP_Solution_Node::row_sign(const Row& x,
                             const dimension_type big_dimension) {
+#ifdef BUGSENG_PPL_VERIF
+  PPL_VERIF_REACH(PIP_ROW_SIGN);
+#endif
   if (big_dimension != not_a_dimension()) {
     // If a big parameter has been set and its coefficient is not zero,
     // then return the sign of the coefficient.
@@ -2216,6 +2222,9 @@ PIP_Tree_Node::compatibility_check(const Matrix<Row>& context, const Row& row) {
 
 bool
 PIP_Tree_Node::compatibility_check(Matrix<Row>& s) {
+#ifdef BUGSENG_PPL_VERIF
+  PPL_VERIF_REACH(PIP_COMPAT_CHECK);
+#endif
   PPL_ASSERT(s.OK());
   // Note: num_rows may increase.
   dimension_type num_rows = s.num_rows();
@@ -3482,6 +3491,9 @@ PIP_Solution_Node::generate_cut(const dimension_type index,
                                 Matrix<Row>& context,
                                 dimension_type& space_dimension,
                                 const int indent_level) {
+#ifdef BUGSENG_PPL_VERIF
+  PPL_VERIF_REACH(PIP_GENERATE_CUT);
+#endif
   PPL_ASSERT(indent_level >= 0);
 #ifdef NOISY_PIP
   std::cerr << std::setw(2 * indent_level) << ""
